@@ -200,4 +200,287 @@ theorem issuance_complete (hA : ArithOK) (cs : Suite) (hR : RangeComplete cs) (p
     obtain ⟨-, -, -, -, hee⟩ := extend_elim hA (pick_nonneg hm R) hext'
     exact blind_verify_core hA cs hk hau hlen hm hr0 (hfull ext hee) ⟨he1, he2⟩ hrp hd hbs hv []
 
+/-- "Strictly ascending hidden positions, revealed = the complement" is an instance of the partition
+hypothesis of `issuance_complete`. -/
+theorem perm_complement {n : Nat} {U : List Nat} (hs : U.Pairwise (· < ·)) (hU : ∀ i ∈ U, i < n) :
+    (U ++ (List.range n).filter (fun i => !U.contains i)).Perm (List.range n) := by
+  have hnd : U.Nodup := hs.imp (fun h => ne_of_lt h)
+  have h1 : ((List.range n).filter (fun i => U.contains i)).Perm U := by
+    refine (List.perm_ext_iff_of_nodup (List.nodup_range.filter _) hnd).2 ?_
+    intro a
+    simp only [List.mem_filter, List.mem_range, List.contains_iff_mem]
+    constructor
+    · exact fun h => h.2
+    · exact fun h => ⟨hU a h, h⟩
+  exact (h1.symm.append_right _).trans (List.filter_append_perm _ _)
+
+/-- `issuance_complete` in the form "strictly ascending `U ⊆ [0,n)`, non-empty, `R` = its complement". -/
+theorem issuance_complete_sorted (hA : ArithOK) (cs : Suite) (hR : RangeComplete cs) (pk : PublicKey)
+    (sk : SecretKey) (bases msgs : List Int) (U : List Nat) (hk : KeysOK pk sk)
+    (hau : ∀ a ∈ bases, Int.gcd a pk.N = 1) (hlen : msgs.length ≤ bases.length)
+    (hm : ∀ m ∈ msgs, 0 ≤ m ∧ m < 2 ^ cs.lm)
+    (hs : U.Pairwise (· < ·)) (hUn : ∀ i ∈ U, i < msgs.length) (hU : U ≠ [])
+    (C : Commitment) (t₁ t₁' : List Draw)
+    (hcommit : commitWithPk cs msgs pk bases (some U) t₁ = .ok (C, t₁'))
+    (Ct : Option Commitment) (cpk : Option CommitmentPK)
+    (hT : ∀ ct k, Ct = some ct → cpk = some k → TrustedOK cs msgs U ct k)
+    (π : ZKPoK) (t₂ t₂' : List Draw)
+    (hgen : zkpokGen cs msgs C Ct pk bases cpk U t₂ = .ok (π, t₂')) :
+    let R := (List.range msgs.length).filter (fun i => !U.contains i)
+    zkpokVerify cs π C.value (Ct.map Commitment.value) pk bases cpk U [] = .ok (true, []) ∧
+    (∀ t₃, blindSign cs pk sk bases π (some (pick msgs R)) C (Ct.map Commitment.value) cpk U (some R) t₃
+        ≠ .panic) ∧
+    (∀ t₃ β t₃', blindSign cs pk sk bases π (some (pick msgs R)) C (Ct.map Commitment.value) cpk U
+        (some R) t₃ = .ok (β, t₃') →
+      verifyMultiattr cs (unblindSign β C) pk bases msgs [] = .ok (true, [])) :=
+  issuance_complete hA cs hR pk sk bases msgs U _ hk hau hlen hm (perm_complement hs hUn) (fun _ => hU)
+    C t₁ t₁' hcommit Ct cpk hT π t₂ t₂' hgen
+
+/-- With nothing revealed, passing `None`/`None` or `Some([])`/`Some([])` to `blind_sign` is the same. -/
+theorem blindSign_none_eq_nil (cs : Suite) (pk : PublicKey) (sk : SecretKey) (bases : List Int)
+    (π : ZKPoK) (C : Commitment) (Ctv : Option Int) (cpk : Option CommitmentPK) (U : List Nat) :
+    blindSign cs pk sk bases π none C Ctv cpk U none =
+      blindSign cs pk sk bases π (some []) C Ctv cpk U (some []) := rfl
+
+/-- the hypotheses on the keys and on the index lists are satisfiable (toy sizes) -/
+example : KeysOK ⟨15, 4, 4⟩ ⟨3, 5⟩ :=
+  ⟨Nat.prime_three, Nat.prime_five, by decide, by norm_num, by decide,
+    by decide, by decide⟩
+example : ([1] ++ [0, 2]).Perm (List.range [(7 : Int), 8, 9].length) := by decide
+example : ([2, 0] ++ [1]).Perm (List.range 3) := by decide
+
+/-! ### 5. Re-issuing after changing revealed attributes -/
+
+/-- **`update_signature` is complete.** `msgs'` is the UPDATED vector (it agrees with the committed one
+on the hidden positions `U`, which is what `hC` says); `β` is any blind signature with a usable `e`
+(`blind_sign` outputs are, see `update_after_issuance`). The call returns (on every tape, consuming
+nothing), keeps `e`, `r'`, and its unblinding verifies on the updated vector. -/
+theorem update_complete (hA : ArithOK) (cs : Suite) (pk : PublicKey) (sk : SecretKey)
+    (bases msgs' : List Int) (U R : List Nat) (hk : KeysOK pk sk)
+    (hau : ∀ a ∈ bases, Int.gcd a pk.N = 1) (hlen : msgs'.length ≤ bases.length)
+    (hm : ∀ m ∈ msgs', 0 ≤ m ∧ m < 2 ^ cs.lm)
+    (hperm : (U ++ R).Perm (List.range msgs'.length))
+    (C : Commitment) (hr0 : 0 ≤ C.randomness)
+    (hC : C.value ≡ rep bases msgs' U * pk.b ^ C.randomness.toNat [ZMOD pk.N])
+    (β : BlindSignature) (he : 2 ^ (cs.le - 1) < β.e ∧ β.e < 2 ^ cs.le)
+    (hg : Int.gcd β.e ((sk.p - 1) * (sk.q - 1)) = 1) (hrp : 0 ≤ β.rprime) (t : List Draw) :
+    ∃ β', updateSignature β (some (pick msgs' R)) C sk pk bases (some R) t = .ok (β', t) ∧
+      β'.e = β.e ∧ β'.rprime = β.rprime ∧
+      verifyMultiattr cs (unblindSign β' C) pk bases msgs' [] = .ok (true, []) := by
+  have hN1 := hk.one_lt_N
+  have hN : 0 < pk.N := by omega
+  have hmem : ∀ i ∈ R, i < msgs'.length := by
+    intro i hi
+    have : i ∈ U ++ R := List.mem_append.2 (Or.inr hi)
+    simpa using (hperm.mem_iff).1 this
+  obtain ⟨ext, hext⟩ := extend_run hA C (revealed := pick msgs' R) (pk := pk) (bases := bases) (R := R) hN
+    (pick_nonneg hm R) (by simp [pick]) (fun i hi => lt_of_lt_of_le (hmem i hi) hlen) t
+  obtain ⟨-, -, -, -, hee⟩ := extend_elim hA (pick_nonneg hm R) hext
+  obtain ⟨d, hd, hd0, -, -⟩ := invMod_of_gcd hA (phi_gt_one hk.hp hk.hq hk.hpq) hg
+  have hext' : extOf C (some (pick msgs' R)) pk bases (some R) t = .ok (ext, t) := hext
+  refine ⟨⟨β.e, β.rprime, (ext.value * (pk.b ^ β.rprime.toNat % pk.N) * pk.c) ^ d.toNat % pk.N⟩,
+    ?_, rfl, rfl, ?_⟩
+  · rw [updateSignature_eq, bind_of_ok hext', bind_of_ok (ofOpt_run hd t),
+      bind_of_ok (pw_run_nonneg hA hN hrp t), bind_of_ok (pw_run_nonneg hA hN hd0 t)]
+    rfl
+  · have hfull : ext.value ≡ rep bases msgs' (List.range msgs'.length) * pk.b ^ C.randomness.toNat
+        [ZMOD pk.N] := by
+      rw [repZip_pick] at hee
+      refine hee.trans ((hC.mul_right _).trans ?_)
+      rw [← rep_perm bases msgs' hperm, rep_append]
+      have : rep bases msgs' U * pk.b ^ C.randomness.toNat * rep bases msgs' R =
+          rep bases msgs' U * rep bases msgs' R * pk.b ^ C.randomness.toNat := by ring
+      rw [this]
+    exact blind_verify_core hA cs hk hau hlen hm
+      (β := ⟨β.e, β.rprime, (ext.value * (pk.b ^ β.rprime.toNat % pk.N) * pk.c) ^ d.toNat % pk.N⟩)
+      hr0 hfull he hrp hd (hA.powMod_nonneg _ _ _ hN hrp) (hA.powMod_nonneg _ _ _ hN hd0) []
+
+/-- **Issue, then re-issue with other revealed attributes.** After a successful issuance on `msgs`
+(commitment `C` to the hidden positions `U`, blind signature `β`), `update_signature` with the revealed
+attributes of any vector `msgs'` that agrees with `msgs` on the hidden positions returns a blind signature
+whose unblinding verifies on `msgs'`. -/
+theorem update_after_issuance (hA : ArithOK) (cs : Suite) (pk : PublicKey) (sk : SecretKey)
+    (bases msgs msgs' : List Int) (U R : List Nat) (hk : KeysOK pk sk)
+    (hau : ∀ a ∈ bases, Int.gcd a pk.N = 1) (hlen : msgs'.length ≤ bases.length)
+    (hm : ∀ m ∈ msgs, 0 ≤ m ∧ m < 2 ^ cs.lm) (hm' : ∀ m ∈ msgs', 0 ≤ m ∧ m < 2 ^ cs.lm)
+    (hperm : (U ++ R).Perm (List.range msgs'.length))
+    (hsame : ∀ i ∈ U, msgs'.getD i 0 = msgs.getD i 0)
+    (C : Commitment) (t₁ t₁' : List Draw)
+    (hcommit : commitWithPk cs msgs pk bases (some U) t₁ = .ok (C, t₁'))
+    (π : ZKPoK) (rev : Option (List Int)) (Ctv : Option Int) (cpk : Option CommitmentPK)
+    (ri : Option (List Nat)) (β : BlindSignature) (t₃ t₃' : List Draw)
+    (hβ : blindSign cs pk sk bases π rev C Ctv cpk U ri t₃ = .ok (β, t₃')) (t : List Draw) :
+    ∃ β', updateSignature β (some (pick msgs' R)) C sk pk bases (some R) t = .ok (β', t) ∧
+      verifyMultiattr cs (unblindSign β' C) pk bases msgs' [] = .ok (true, []) := by
+  obtain ⟨hr0, -, -, -, hCe, -, -⟩ := commitWithPk_elim (uo := some U) hA
+    (fun i _ => (getD_inRange hm i).1) hcommit
+  simp only [Option.getD_some] at hCe
+  rw [← rep_congr bases hsame] at hCe
+  obtain ⟨-, -, -, -, -, ⟨he1, he2, hg⟩, ⟨hrp, -⟩, -⟩ := blindSign_elim hβ
+  obtain ⟨β', h1, -, -, h2⟩ := update_complete hA cs pk sk bases msgs' U R hk hau hlen hm' hperm C hr0 hCe β
+    ⟨he1, he2⟩ hg hrp t
+  exact ⟨β', h1, h2⟩
+
+/-- **Valid for the updated vector only.** If one signature `σ` (for instance the unblinded updated
+signature) is accepted both for `msgs'` and for a vector `msgs` of the same length that differs from it
+exactly at position `j` (a changed revealed attribute), then `a_j^{m_j} ≡ a_j^{m'_j} (mod N)`, i.e. a
+non-zero multiple `|m_j - m'_j| < 2^lm` of the order of `a_j` is known: the event `OrderRelation N a_j`.
+For all `σ`, all tapes. -/
+theorem update_valid_only (hA : ArithOK) {cs : Suite} {σ : Signature} {pk : PublicKey}
+    {bases msgs msgs' : List Int} (hN : 1 < pk.N) (hbu : Int.gcd pk.b pk.N = 1)
+    (hcu : Int.gcd pk.c pk.N = 1) (hau : ∀ a ∈ bases, Int.gcd a pk.N = 1)
+    (hlen : msgs.length = msgs'.length) (j : Nat) (hj : j < msgs.length)
+    (hagree : ∀ i, i ≠ j → msgs.getD i 0 = msgs'.getD i 0) (hne : msgs.getD j 0 ≠ msgs'.getD j 0)
+    {t₁ t₁' t₂ t₂' : List Draw}
+    (h₁ : verifyMultiattr cs σ pk bases msgs' t₁ = .ok (true, t₁'))
+    (h₂ : verifyMultiattr cs σ pk bases msgs t₂ = .ok (true, t₂')) :
+    bases.getD j 1 ^ (msgs.getD j 0).toNat ≡ bases.getD j 1 ^ (msgs'.getD j 0).toNat [ZMOD pk.N] ∧
+      OrderRelation pk.N (bases.getD j 1) := by
+  have h := verify_two_vectors hA hN hbu hcu h₂ h₁
+  obtain ⟨-, hm, -⟩ := verifyMultiattr_true_elim hA h₂
+  obtain ⟨-, hm', -⟩ := verifyMultiattr_true_elim hA h₁
+  rw [← hlen] at h
+  have hp : (List.range msgs.length).Perm (j :: (List.range msgs.length).erase j) :=
+    List.perm_cons_erase (List.mem_range.2 hj)
+  have hnj : j ∉ (List.range msgs.length).erase j := List.Nodup.not_mem_erase List.nodup_range
+  rw [rep_perm bases msgs hp, rep_perm bases msgs' hp, rep_cons, rep_cons,
+    rep_congr bases (m₁ := msgs) (m₂ := msgs') (fun i hi => hagree i (fun e => by subst e; exact hnj hi))] at h
+  have hcong := modEq_cancel_right (cop_rep hau msgs' _) h
+  exact ⟨hcong, order_of_pow_eq (cop_getD hau j) (getD_inRange hm j).1 (getD_inRange hm' j).1 hne hcong⟩
+
+/-! ### 2. Special soundness (statements; proofs in `Lemmas/ClSigma.lean`)
+
+`ClSigma.Nisp2secAccepts g h n C π c` is the verifier's equation with an explicit challenge `c`
+(`nisp2secVerify_true_iff`: the verifier uses `c = hashInts [g, h, C, t]`).
+* `ClSigma.nisp2sec_special_sound`: two accepting transcripts `(t, s1, s2, c)`, `(t, s1', s2', c')` give
+  `G^{s1-s1'} · H^{s2-s2'} = C^{c-c'}` in `(ℤ/n)ˣ`.
+* `ClSigma.nisp2sec_extract`: `C = G^m H^r ∨ SmallOrderUnit n (c-c') ∨ ChallengeNotDividing (c-c') Δs1 Δs2`
+  (the last is the strong-RSA event: in an RSA group one cannot divide exponents by `c - c'`).
+* `ClSigma.nispMulti_special_sound`: the same for `nispMultiSecrets`, with `Π_j A_{U_j}^{Δs1_j} · B^{Δs2}`.
+They are restated here in `ℤ` for non-negative responses. -/
+
+/-- Special soundness of `nisp2sec` read in `ℤ`, for non-negative responses and challenges (no division,
+no inverse): `g^{s1} h^{s2} C^{c'} ≡ g^{s1'} h^{s2'} C^{c} (mod n)`, i.e. `g^{s1-s1'} h^{s2-s2'} ≡ C^{c-c'}`. -/
+theorem nisp2sec_special_sound_int (hA : ArithOK) {g h n cv c c' : Int} {π π' : NISPSecrets}
+    (hn : 1 < n) (hg : Int.gcd g n = 1) (hh : Int.gcd h n = 1) (hc : Int.gcd cv n = 1)
+    (ht : π.t = π'.t) (h1 : 0 ≤ π.s1) (h2 : 0 ≤ π.s2) (h1' : 0 ≤ π'.s1) (h2' : 0 ≤ π'.s2)
+    (hc0 : 0 ≤ c) (hc0' : 0 ≤ c')
+    (hacc : Nisp2secAccepts g h n cv π c) (hacc' : Nisp2secAccepts g h n cv π' c') :
+    g ^ π.s1.toNat * h ^ π.s2.toNat * cv ^ c'.toNat ≡
+      g ^ π'.s1.toNat * h ^ π'.s2.toNat * cv ^ c.toNat [ZMOD n] := by
+  have hn0 : 0 < n := by omega
+  obtain ⟨a, b, cc, ha, hb, hcc, heq⟩ := hacc
+  obtain ⟨a', b', cc', ha', hb', hcc', heq'⟩ := hacc'
+  rw [hA.powMod_nonneg _ _ _ hn0 h1] at ha
+  rw [hA.powMod_nonneg _ _ _ hn0 h2] at hb
+  rw [hA.powMod_nonneg _ _ _ hn0 hc0] at hcc
+  rw [hA.powMod_nonneg _ _ _ hn0 h1'] at ha'
+  rw [hA.powMod_nonneg _ _ _ hn0 h2'] at hb'
+  rw [hA.powMod_nonneg _ _ _ hn0 hc0'] at hcc'
+  obtain rfl := Option.some.inj ha
+  obtain rfl := Option.some.inj hb
+  obtain rfl := Option.some.inj hcc
+  obtain rfl := Option.some.inj ha'
+  obtain rfl := Option.some.inj hb'
+  obtain rfl := Option.some.inj hcc'
+  -- `G·H ≡ t·C^c`, `G'·H' ≡ t·C^{c'}`
+  have e : g ^ π.s1.toNat * h ^ π.s2.toNat ≡ π.t * cv ^ c.toNat [ZMOD n] := by
+    have l := (tmod_modEq (g ^ π.s1.toNat % n * (h ^ π.s2.toNat % n)) n).symm
+    rw [heq] at l
+    exact (((Int.mod_modEq _ _).mul (Int.mod_modEq _ _)).symm.trans l).trans
+      ((tmod_modEq _ _).trans ((Int.mod_modEq _ _).mul_left _))
+  have e' : g ^ π'.s1.toNat * h ^ π'.s2.toNat ≡ π.t * cv ^ c'.toNat [ZMOD n] := by
+    have l := (tmod_modEq (g ^ π'.s1.toNat % n * (h ^ π'.s2.toNat % n)) n).symm
+    rw [heq', ← ht] at l
+    exact (((Int.mod_modEq _ _).mul (Int.mod_modEq _ _)).symm.trans l).trans
+      ((tmod_modEq _ _).trans ((Int.mod_modEq _ _).mul_left _))
+  calc g ^ π.s1.toNat * h ^ π.s2.toNat * cv ^ c'.toNat
+      ≡ π.t * cv ^ c.toNat * cv ^ c'.toNat [ZMOD n] := e.mul_right _
+    _ = π.t * cv ^ c'.toNat * cv ^ c.toNat := by ring
+    _ ≡ g ^ π'.s1.toNat * h ^ π'.s2.toNat * cv ^ c.toNat [ZMOD n] := (e'.symm).mul_right _
+
+/-! ### 6. The proof is bound to the commitment, the bases and the hidden positions -/
+
+/-- The challenge of the multi-secret proof is the hash of `(a_U, b, C, t)`: two different statements
+(bases at the hidden positions, `b`, commitment value) with the same first message `t` get different
+challenges, unless `ConcatAmbiguity ∨ ClHashCollision`. (The decimal strings are concatenated without
+separators, so `ConcatAmbiguity` is a real possibility, e.g. `[12, 3]` vs `[1, 23]`.) -/
+theorem challenge_binds_statement {as as' : List Int} {b b' C C' t : Int}
+    (hne : ¬ (as = as' ∧ b = b' ∧ C = C'))
+    (h : hashInts (as ++ [b, C, t]) = hashInts (as' ++ [b', C', t])) :
+    ConcatAmbiguity ∨ ClHashCollision := by
+  refine hashInts_collision ?_ h
+  intro he
+  apply hne
+  have := List.append_inj' he (by simp)
+  obtain ⟨h1, h2⟩ := this
+  simp only [List.cons.injEq, and_true] at h2
+  exact ⟨h1, h2.1, h2.2⟩
+
+/-- **Mismatching commitment.** If the same multi-secret proof `π` is accepted against two commitment
+values `C` and `C'` (same key, bases, hidden positions; all units), then with the two challenges
+`c = H(a_U, b, C, t)`, `c' = H(a_U, b, C', t)`: `C^c ≡ C'^{c'} (mod N)`. Moreover if `C ≠ C'` the two
+challenges are different unless `ConcatAmbiguity ∨ ClHashCollision`. So accepting `π` for another
+commitment requires a commitment value `C'` whose `H(.., C', ..)`-th power hits the fixed element `C^c`
+(for `c' = c` this forces `(C/C')^c = 1`).  Nothing stronger holds unconditionally. -/
+theorem zkpok_mismatch_commitment (hA : ArithOK) {pk : PublicKey} {bases : List Int} {U : List Nat}
+    {π : NISPMultiSecrets} {C C' : Int} (hN : 1 < pk.N) (hbu : Int.gcd pk.b pk.N = 1)
+    (hau : ∀ a ∈ bases, Int.gcd a pk.N = 1) (hCu : Int.gcd C pk.N = 1)
+    {s s₁ s' s₁' : List Draw}
+    (h : nispMultiSecretsVerify π C pk bases (some U) s = .ok (true, s₁))
+    (h' : nispMultiSecretsVerify π C' pk bases (some U) s' = .ok (true, s₁')) :
+    C ^ (hashInts (U.map (fun i => bases.getD i 1) ++ [pk.b, C, π.t])).toNat ≡
+        C' ^ (hashInts (U.map (fun i => bases.getD i 1) ++ [pk.b, C', π.t])).toNat [ZMOD pk.N] ∧
+      (C ≠ C' →
+        hashInts (U.map (fun i => bases.getD i 1) ++ [pk.b, C, π.t]) =
+          hashInts (U.map (fun i => bases.getD i 1) ++ [pk.b, C', π.t]) →
+        ConcatAmbiguity ∨ ClHashCollision) := by
+  have hN0 : 0 < pk.N := by omega
+  obtain ⟨-, -, -, x, hs, cc, hx, hhs, hcc, heq⟩ := (nispMultiSecretsVerify_true_iff _ _ _ _ _ _ _).1 h
+  obtain ⟨-, -, -, x', hs', cc', hx', hhs', hcc', heq'⟩ :=
+    (nispMultiSecretsVerify_true_iff _ _ _ _ _ _ _).1 h'
+  rw [hx] at hx'
+  simp only [CRes.ok.injEq, Prod.mk.injEq, and_true] at hx'
+  subst hx'
+  rw [hhs] at hhs'
+  obtain rfl := Option.some.inj hhs'
+  rw [hA.powMod_nonneg _ _ _ hN0 (hashInts_nonneg _)] at hcc hcc'
+  obtain rfl := Option.some.inj hcc
+  obtain rfl := Option.some.inj hcc'
+  refine ⟨?_, fun hne hc => challenge_binds_statement (by tauto) hc⟩
+  -- `t · C^c ≡ x·hs ≡ t · C'^{c'}` and `t` is a unit
+  have rx := prodPowZip_isRep hA hN hau U π.s1 1 x [] [] 1 (by unfold IsRep; simp) hx
+  have rb := powMod_isRep hA hN hbu (unitOf_spec hN hbu) hhs
+  have hxu : IsCoprime (x * hs) pk.N := ((rx.mul rb)).cop hN
+  have e1 : π.t * (C ^ (hashInts (U.map (fun i => bases.getD i 1) ++ [pk.b, C, π.t])).toNat % pk.N) ≡
+      x * hs [ZMOD pk.N] := by
+    have l := tmod_modEq (x * hs) pk.N
+    rw [heq] at l
+    exact (tmod_modEq _ _).symm.trans l
+  have e2 : π.t * (C' ^ (hashInts (U.map (fun i => bases.getD i 1) ++ [pk.b, C', π.t])).toNat % pk.N) ≡
+      x * hs [ZMOD pk.N] := by
+    have l := tmod_modEq (x * hs) pk.N
+    rw [heq'] at l
+    exact (tmod_modEq _ _).symm.trans l
+  have htu : IsCoprime π.t pk.N := IsCoprime.of_mul_left_left (cop_of_modEq e1 hxu)
+  have e3 := modEq_cancel_left htu (e1.trans e2.symm)
+  exact (Int.mod_modEq _ _).symm.trans (e3.trans (Int.mod_modEq _ _))
+
+/-- The same at the level of `ZKPoK::verify_proof` (what `blind_sign` checks): one `ZKPoK` accepted for two
+commitment values. -/
+theorem zkpok_mismatch (hA : ArithOK) {cs : Suite} {π : ZKPoK} {C C' : Int} {Ctv Ctv' : Option Int}
+    {pk : PublicKey} {bases : List Int} {cpk cpk' : Option CommitmentPK} {U : List Nat}
+    (hN : 1 < pk.N) (hbu : Int.gcd pk.b pk.N = 1) (hau : ∀ a ∈ bases, Int.gcd a pk.N = 1)
+    (hCu : Int.gcd C pk.N = 1) {s s₁ s' s₁' : List Draw}
+    (h : zkpokVerify cs π C Ctv pk bases cpk U s = .ok (true, s₁))
+    (h' : zkpokVerify cs π C' Ctv' pk bases cpk' U s' = .ok (true, s₁')) :
+    C ^ (hashInts (U.map (fun i => bases.getD i 1) ++ [pk.b, C, π.proofMsgs.t])).toNat ≡
+        C' ^ (hashInts (U.map (fun i => bases.getD i 1) ++ [pk.b, C', π.proofMsgs.t])).toNat
+          [ZMOD pk.N] ∧
+      (C ≠ C' →
+        hashInts (U.map (fun i => bases.getD i 1) ++ [pk.b, C, π.proofMsgs.t]) =
+          hashInts (U.map (fun i => bases.getD i 1) ++ [pk.b, C', π.proofMsgs.t]) →
+        ConcatAmbiguity ∨ ClHashCollision) :=
+  zkpok_mismatch_commitment hA hN hbu hau hCu (zkpokVerify_true_elim h).1 (zkpokVerify_true_elim h').1
+
 end Zk.C14
